@@ -105,7 +105,8 @@ def run_case(ctx, st, pt, P: Pep, rule, missed, semi, primary_rt):
             # the protein as text, as a parsed annotation, or as an equal annotation whose modification dictionary
             # and interval list are out of positional order (decoys from reverse(), programmatic construction)
             arg = text if r < 0.6 else pt.parse(text) if r < 0.75 else rp.scrambled(pt, text, ctx.rng)
-            list(pt.digest(arg, rule, missed, semi, return_type=rt))
+            # a flag is a flag: semi=1 (from a config file / table column) asks for what semi=True asks for
+            list(pt.digest(arg, rule, missed, (1 if semi and r < 0.3 else semi), return_type=rt))
             results[rt] = st.case.get('result')
         except Exception as ex:
             ctx.decided()
@@ -221,6 +222,15 @@ def run(ctx):
         else:
             drop_straddling(P, rd.sites(P.seq, rule))
         run_case(ctx, st, pt, P, rule, rng.randint(0, 3), semi, rng.choice(RETURN_TYPES))
+    # protein-sized inputs (257..300 residues, past the small-integer cache and any block size), terminal modifications
+    longc = gp.GenCfg(min_len=257, max_len=300, letters=LETTERS, weights={'int': 2, 'float': 2, 'unimod-name': 3},
+                      p_res=0.03, p_unknown=0.0, p_interval=0.0, p_charge=0.0, p_isotope=0.15, p_static=0.2,
+                      p_static_term=0.2, p_labile=0.1, p_nterm=0.7, p_cterm=0.9, p_tag=0, p_alt=0, p_mult=0.05,
+                      labels=['13C', '15N'])
+    for _ in range(ctx.n(32, 600)):
+        P = gp.gen_pep(rng, longc)
+        run_case(ctx, st, pt, P, rng.choice(['trypsin', 'lys-c', 'asp-n']), rng.randint(0, 1), False,
+                 rng.choice(RETURN_TYPES))
     for _ in range(ctx.n(600, 20000)):
         P = gp.gen_pep(rng, small)
         P.intervals = []
